@@ -949,8 +949,13 @@ coap_session_disconnected_lkd(coap_session_t *session, coap_nack_reason_t reason
 
   while (q) {
     if (q->session == session) {
-      /* Take the first one */
-      coap_handle_nack(session, q->pdu, reason, q->id);
+      /*
+       * Take the first one.  Unless this is an ICMP issue (nothing is removed
+       * then), coap_cancel_session_messages() below reports every queued
+       * Confirmable of the session, this one included: do not report it twice.
+       */
+      if (reason == COAP_NACK_ICMP_ISSUE || q->pdu->type != COAP_MESSAGE_CON)
+        coap_handle_nack(session, q->pdu, reason, q->id);
       sent_nack = 1;
       break;
     }
